@@ -18,6 +18,10 @@ CHECKS = {
              technique="Coq proof (list algebra over an arbitrary permutation oracle) + vm_compute correspondence", ref="5/C16"),
  "C19": dict(text="Theorems (Coq, closed): for every guarded entry point the decision function of its guards (Guard/Guards.v, over classes of Python values: python/numpy ints of any sign, float, str, list, None, 'auto') returns the stated exception class for EVERY value of the invalid classes, at every life-cycle state (13 theorems incl. NotFittedError for every consumer before fit); on the SSPOR machine a rejected setter changes nothing and a rejection by update_n_basis_modes' own guards changes nothing; the remaining case (rejection inside the re-fit) is REFUTED for the faithful model and recorded as a known finding. Correspondence: exhaustive table entry point x value class x state (~900 rows) compares exception classes with the model; observables before/after every rejected setter/update call; random SSPOR histories with invalid values against the Coq machine.",
              technique="Coq proof (decision tables by case analysis; state machine) + exhaustive-table vm_compute correspondence", ref="5/C19"),
+ "C08": dict(text="Theorems (Coq, closed): threshold mode selects exactly the sensors with magnitude >= threshold (thr_exact), is antitone in the threshold, threshold 0 selects everything; the executable checker run on every observed top-n selection is sound for the relational specification (n distinct valid sensors in non-increasing magnitude, every selected >= every unselected - numpy's argsort is not stable, so ties are judged by the specification); a valid top-k2 selection restricted to its first k1 entries is a valid top-k1 selection; after any sequence of updates the stored n_sensors equals the number of selected sensors. Correspondence: random fit + update_sensors histories (counts 0..n, thresholds incl. 0 / exact magnitudes / above max, max/min/mean/median aggregation), checkers evaluated inside Coq on exact integers (doubles scaled by a common power of two); default threshold checked on squares.",
+             technique="Coq proof (list/filter reasoning, verified checkers) + vm_compute correspondence on observed selections", ref="5/C08"),
+ "C09": dict(text="Theorems (Coq, closed, all histories, every answer of the threshold-count oracle): on the SSPOC token machine the invariant 'refit_ says which kind of classifier is stored and the dummy belongs to the last fit' holds in every reachable state; after ANY successful operation predict is (a) the dummy of the last fit's labels when n_sensors = 0, (b) the classifier trained on the sensor columns of the data of THAT call for the CURRENT selection, applied directly, after refitting operations, (c) the classifier trained on the basis coordinates of that data, applied through Psi^-T of that fit, after fit(refit=False). Correspondence: random histories on real SSPOC objects vs the Coq machine, whose predict tokens are evaluated by fresh objects (sklearn.clone of the classifier, fresh basis, fresh single-fit SSPOC) and compared label by label.",
+             technique="Coq proof (state machine invariant, induction over histories) + vm_compute correspondence with fresh-object token evaluation", ref="5/C09"),
 }
 NOT_APPLICABLE = {}
 def main():
